@@ -342,8 +342,14 @@ fn main() {
 
     // the whole history is read before anything runs: the driver can then write it and close
     // the pipe before reading our output (no deadlock on full pipes)
+    // (under Miri with isolation stdin cannot be read: the history may also come as `--plan=<text>`)
     let mut all = String::new();
-    stdin.lock().read_to_string(&mut all).expect("stdin");
+    match std::env::args().find_map(|a| a.strip_prefix("--plan=").map(|p| p.to_string())) {
+        Some(p) => all = p,
+        None => {
+            stdin.lock().read_to_string(&mut all).expect("stdin");
+        },
+    }
     for line in all.lines() {
         let mut f = line.split(' ');
         match f.next() {
